@@ -10,7 +10,7 @@ with tempfile.TemporaryDirectory() as td:
     xml = os.path.join(td, "r.xml")
     env = dict(os.environ); env.pop("NFCPY_VERIF", None)
     env["PYTHONPATH"] = os.path.join(repo, "src")
-    subprocess.run(["/venv/bin/python", "-m", "pytest", "-q", "-p", "no:cacheprovider", "--timeout=900",
+    subprocess.run(["/venv/bin/python", "-m", "pytest", "-q", "-p", "no:cacheprovider", "--timeout=120",
                     "--continue-on-collection-errors", "--junitxml=" + xml], cwd=repo, env=env,
                    stdout=subprocess.DEVNULL, stderr=subprocess.DEVNULL)
     passed = set()
